@@ -315,7 +315,7 @@ def build_fgg(ag, kind='real', dtype=None, *, rule_order=None, implicit_ids=Fals
     order = rule_order if rule_order is not None else list(range(len(ag['rules'])))
     # defer_rules = k: the last k rules (in `order`) are NOT added now; info['add_deferred']() adds them later, so that
     # queries can be made on the same object before and after (histories: query, add_rule, query)
-    deferred = order[len(order) - defer_rules:] if defer_rules else []
+    deferred = (list(defer_rules) if isinstance(defer_rules, (list, tuple)) else order[len(order) - defer_rules:]) if defer_rules else []
 
     def add_rule_ix(ri):
         r = ag['rules'][ri]
